@@ -68,7 +68,7 @@ macro_rules! hvec_caps {
 }
 
 pub fn run(ctx: &Ctx) {
-    let corpus = value_corpus(3, 256, if ctx.quick() { 12 } else { 40 });
+    let corpus = value_corpus(3, 256, if ctx.quick() { 24 } else { 40 });
     let framings = if ctx.quick() { quick_framings() } else { all_framings() };
     let calls = AtomicU64::new(0);
     let ok_calls = AtomicU64::new(0);
